@@ -99,6 +99,16 @@ CLAIMED = {
             "len(categories); Results.Save always stores. Does not decide what each test function matches.",
             "SSA value-provenance and guard-dominance checks on the router functions",
             "DESIGN.md §4 C07"),
+    "C09": ("Structural necessary conditions of race-free concurrent sessions over shared assets: the set of shared struct types "
+            "is computed (90 types reachable from the SessionAssets/FlowAssets implementations, session-owned types proven outside "
+            "it); 58 session-phase entry points (engine calls, inspection, evaluation, modifiers.Apply, every asset getter) have an "
+            "empty interprocedural write summary for those types through non-fresh objects, including appends into re-slices of "
+            "shared slices and deletes; package-level variables are written only from init chains; every flow-cache access is "
+            "under the mutex with no reachable explicit unlock; package-level XObject/XArray values are constructed eagerly; "
+            "localizable-text writers run only on a copy(). Does not observe races, and does not cover third-party packages or "
+            "the host's asset source.",
+            "type-closure of shared state + interprocedural root-sensitive write-effect summaries (go/ssa + CHA), lock-region dominance",
+            "DESIGN.md §4 C09"),
 }
 
 NOT_APPLICABLE = {}
